@@ -15,7 +15,7 @@
    the delta threshold or `<` to `<=` at the size threshold breaks
    [C18_delta_iff] / [C18_sizes_iff]. *)
 From Robsd Require Import Report.DurationSpec Report.ReportProofs Report.DurationProofs Report.DurationMore
-                          Report.ShellTie Inv.LsProofs.
+                          Report.PreviousAge Report.ReportBytes Report.ShellTie Inv.LsProofs.
 From RobsdGen Require Gen_Step.
 From Coq Require Import Sorting.Sorted Sorting.Permutation.
 Local Open Scope N_scope.
@@ -56,11 +56,12 @@ Theorem C18_duration_line : forall m cfg rows fs rep,
   let '(d, delta) := spec_total m rows in
   in_range d = true -> delta_in_range delta = true ->
   rp_duration rep = spec_duration_text d delta 60.
-Proof. exact duration_line. Qed.
+Proof. exact (duration_line cur_sw). Qed.
 Print Assumptions C18_duration_line.
 
 (* the Duration: line of the k-th section: that of the k-th listed row, any non-zero delta shown (threshold 0) *)
 Theorem C18_step_duration_line : forall m cfg rows fs rep k s,
+  cvs_guard m fs ->
   report_struct_rows m cfg rows fs = ROk rep -> nth_error (rp_sections rep) k = Some s ->
   exists r, nth_error (filter (spec_shown m cfg fs) rows) k = Some r /\
     s_name s = r_name r /\ s_duration s = step_duration r /\
@@ -126,22 +127,61 @@ Theorem C18_numbered_diff : forall name,
 Proof. exact numbered_diff_iff. Qed.
 Print Assumptions C18_numbered_diff.
 
-(* the previous invocation is the greatest (strcmp) directory of robsddir other
-   than this one (hidden entries and the attic aside) *)
-Theorem C18_previous : forall cfg fs ents p,
+(* "THE PREVIOUS INVOCATION".  The property means the invocation created last before this one: [spec_previous cfg fs
+   age], where [age] is the creation order of the entries of robsddir (known to whoever made them - the harness,
+   the sequence of build_id calls - not readable from the names).  report.c previous_builddir takes the greatest
+   (strcmp) directory of robsddir other than this one (hidden entries and the attic aside): *)
+Theorem C18_previous_is_greatest_name : forall cfg fs ents p,
   f_root fs = Some ents ->
   previous_builddir cfg fs = Some p ->
   In p (invocation_read (c_robsddir cfg) (c_keepdir cfg) ents) /\ p <> c_builddir cfg /\
   forall q, In q (invocation_read (c_robsddir cfg) (c_keepdir cfg) ents) -> q <> c_builddir cfg -> cmp_le q p.
 Proof. exact previous_is_greatest. Qed.
-Print Assumptions C18_previous.
+Print Assumptions C18_previous_is_greatest_name.
 
-(* the Size: lines of a report that is produced are the specified ones *)
+(* Full statement (refuted):  forall cfg fs age, previous_builddir cfg fs = spec_previous cfg fs age.
+   Build names are <date>.<n>, n unpadded: d.9, d.10, d.11 made in this order, report of d.11 - the previous
+   invocation is d.10, the code compares with d.9 (known finding C18 previous-is-name-order-not-age) *)
+Theorem C18_previous_refuted :
+  spec_previous pa_cfg pa_files pa_age = Some (mkpath pa_root pa_d10) /\
+  previous_builddir pa_cfg pa_files = Some (mkpath pa_root pa_d9) /\
+  name_order_is_age pa_cfg pa_files pa_age = false.
+Proof. exact previous_refuted. Qed.
+Print Assumptions C18_previous_refuted.
+
+(* ... so the Size: lines of that report give the change against the wrong invocation: +5.0M where bsd grew by 1.0M *)
+Theorem C18_sizes_refuted :
+  report_sizes Robsd pa_cfg pa_files_sizes = [size_prefix ++ [98; 115; 100; 32; 54; 46; 48; 77; 32; 40; 43; 53; 46; 48; 77; 41]] /\
+  spec_sizes Robsd pa_cfg pa_files_sizes pa_age = [size_prefix ++ [98; 115; 100; 32; 54; 46; 48; 77; 32; 40; 43; 49; 46; 48; 77; 41]].
+Proof. exact sizes_refuted. Qed.
+Print Assumptions C18_sizes_refuted.
+
+(* under the exact guard - every invocation is in [age], the invocations in creation order are in strictly ascending
+   strcmp order, nothing was created after this one - the code's choice IS the previous invocation *)
+Theorem C18_previous_partial : forall cfg fs age,
+  name_order_is_age cfg fs age = true -> previous_builddir cfg fs = spec_previous cfg fs age.
+Proof. exact (fun cfg fs age H => eq_trans (previous_is_by_name cfg fs) (eq_sym (previous_coincide cfg fs age H))). Qed.
+Print Assumptions C18_previous_partial.
+
+(* the guard holds for the names of a day with fewer than ten builds (they differ in the last character only) and
+   breaks with the tenth *)
+Theorem C18_single_digit_names_in_order : forall pre i j,
+  i < j -> strcmp (pre ++ [i]) (pre ++ [j]) = Lt.
+Proof. exact single_digit_order. Qed.
+Print Assumptions C18_single_digit_names_in_order.
+
+Theorem C18_tenth_build_breaks_order : forall pre, strcmp (pre ++ [57]) (pre ++ [49; 48]) = Gt.
+Proof. exact tenth_breaks_order. Qed.
+Print Assumptions C18_tenth_build_breaks_order.
+
+(* the Size: lines of a report that is produced: always the specified lines against the greatest other name; the
+   specified lines against the previous invocation under the guard *)
 Theorem C18_sizes_in_report : forall m cfg rows fs rep,
   report_struct_rows m cfg rows fs = ROk rep ->
   (forall cur, f_rel fs = Some cur -> Forall (fun f => (0 <= rf_size f)%Z) cur) ->
-  rp_sizes rep = spec_sizes m cfg fs.
-Proof. exact sizes_lines. Qed.
+  rp_sizes rep = sizes_by_name m cfg fs /\
+  (forall age, name_order_is_age cfg fs age = true -> rp_sizes rep = spec_sizes m cfg fs age).
+Proof. exact (sizes_lines cur_sw). Qed.
 Print Assumptions C18_sizes_in_report.
 
 (* size format: unit by magnitude, one decimal, the printed tenths t satisfy
@@ -206,6 +246,7 @@ Print Assumptions C18_no_overflow_wall.
    produced, its status, and its sections with their names, exit codes, log names and bodies do not depend
    on the duration, delta and time fields of any row *)
 Theorem C18_inflight_does_not_break : forall m cfg fs rows rows',
+  cvs_guard m fs ->
   map strip rows = map strip rows' ->
   (report_struct_rows m cfg rows fs = RErr <-> report_struct_rows m cfg rows' fs = RErr) /\
   report_status m rows = report_status m rows' /\
@@ -216,16 +257,30 @@ Theorem C18_inflight_does_not_break : forall m cfg fs rows rows',
 Proof. exact inflight_does_not_break. Qed.
 Print Assumptions C18_inflight_does_not_break.
 
-(* the oracles applied to the implementation's output accept the model's own output *)
+(* the oracles applied to the implementation's output accept the model's own output; the Size: oracle judges by
+   creation order and accepts the model exactly where name order is creation order (outside: C18_sizes_refuted) *)
 Theorem C18_model_passes_oracles : forall x rows rep,
+  cvs_guard (x_mode x) (files_of x) ->
   rows_of x = Some rows ->
   report_struct_rows (x_mode x) (cfg_of x) rows (files_of x) = ROk rep ->
   spec_ok_total x (rp_duration rep) = true /\
   (forall k s, nth_error (rp_sections rep) k = Some s -> spec_ok_step_duration x k (s_duration s) = true) /\
-  spec_ok_sizes x (rp_sizes rep) = true /\
+  (name_order_is_age (cfg_of x) (files_of x) (x_age x) = true -> spec_ok_sizes x (rp_sizes rep) = true) /\
   spec_ok_shell x (render_Z (sh_total (x_mode x) rows)) = true.
 Proof. exact model_passes_all_duration_oracles. Qed.
 Print Assumptions C18_model_passes_oracles.
+
+(* THE ORACLE ON BYTES: [spec_ok_bytes_numbers] compares exit status and standard output byte for byte with the
+   rendering of the report whose Duration: lines are [spec_duration_text] (numbers in range) and whose Size: lines
+   are [spec_sizes] against the previous invocation BY CREATION ORDER - so the lines are judged where they stand in
+   the report, not as fields cut out by a parser.  Whether there is a report, its status, which rows are listed and
+   their bodies are the working tree's model's (C05 judges those), so this oracle fires for a wrong number and nothing
+   else.  It accepts the model's output wherever name order is creation order. *)
+Theorem C18_bytes_oracle_accepts_model : forall x,
+  name_order_is_age (cfg_of x) (files_of x) (x_age x) = true ->
+  spec_ok_bytes_numbers x (fst (run_fixture x)) (snd (run_fixture x)) = true.
+Proof. exact model_passes_bytes_oracle_numbers_cur. Qed.
+Print Assumptions C18_bytes_oracle_accepts_model.
 
 (* non-vacuity: 3661 s with a delta of +70 s; a tie at 2^18 * 5 bytes (1.25M
    prints as 1.2M, 2^18 * 7 = 1.75M as 1.8M); thresholds at the boundary *)
